@@ -12,6 +12,47 @@ CLOCK0 = 1_000_000
 DUR = [("1s", 1), ("2s", 2), ("3s", 3), ("1m", 60), ("2m", 120), ("1h", 3600), ("1d", 86400), ("0s", 0)]
 
 
+def gen_both(seed, i):
+    """a step and an act below it both carry rules, one duration text in common; the act opens later than the step (possibly after the step's
+    rule has fired): the once-mark of a rule belongs to one task"""
+    rng = Rng(seed * 49979687 + i)
+    picks = rng.shuffle(DUR)[:2]
+    common = picks[0]
+    srules = [common] + ([picks[1]] if rng.chance(1, 3) else [])
+    arules = [common] + ([picks[1]] if rng.chance(1, 2) else [])
+    def mk(prefix, rs):
+        rules, tsteps = [], {}
+        for j, (on, secs) in enumerate(rs):
+            sid = f"{prefix}{j}"
+            rules.append({"on": on, "steps": [{"id": sid, "acts": [{"id": f"{sid}a", "uses": gen.MSG, "key": f"k{sid}"}]}]})
+            tsteps[sid] = on
+        return rules, tsteps
+    sr, st = mk("ts", srules)
+    ar, at = mk("us", arules)
+    step = {"id": "s1", "timeout": sr, "acts": [{"id": "a0", "uses": gen.IRQ, "key": "k0"}, {"id": "a1", "uses": gen.IRQ, "key": "k1", "timeout": ar}]}
+    w = {"id": "mt", "steps": [step, {"id": "s2", "acts": [{"id": "a2", "uses": gen.IRQ, "key": "k2"}]}]}
+    ops = [["deploy", 0], ["clock", rng.below(1000)], ["start", "mt", {"pid": "p1"}], ["runall"]]
+    limits = sorted(set(s for _, s in picks))
+    stage = 0
+    for _ in range(rng.range(5, 11)):
+        r = rng.below(100)
+        if r < 70:
+            base = rng.pick(limits) * 1000
+            ops.append(["tick", max(0, rng.pick([base - 1, base, base + 1, 500, 999, 1000, 1001, base // 2 + 1, 60_000]))])
+            ops.append(["runall"])
+        elif stage < 2:
+            ops.append(["act", "next", "p1", {"nid": "a0" if stage == 0 else "a1", "k": 0}, {}])
+            ops.append(["runall"])
+            stage += 1
+        else:
+            ops.append(["clock", rng.pick([10, 1000, 5000])])
+    ops.append(["tick", 90_000_000])
+    ops.append(["runall"])
+    sc = {"id": f"tm-{seed}-{i}", "config": {"keep": True}, "models": [w], "ops": ops}
+    return sc, [{"timed_nid": "s1", "rules": [[on, secs] for on, secs in srules], "tsteps": st},
+                {"timed_nid": "a1", "rules": [[on, secs] for on, secs in arules], "tsteps": at}]
+
+
 def gen_scenario(seed, i):
     rng = Rng(seed * 49979687 + i)
     timed_kind = rng.pick(["act", "act", "step"])
@@ -32,7 +73,8 @@ def gen_scenario(seed, i):
     else:
         step["timeout"] = rules
     w = {"id": "mt", "steps": [step, {"id": "s2", "acts": [{"id": "a2", "uses": gen.IRQ, "key": "k2"}]}]}
-    ops = [["deploy", 0], ["start", "mt", {"pid": "p1"}], ["runall"]]
+    # the timed task opens anywhere inside a second, not on a full-second boundary of the clock
+    ops = [["deploy", 0], ["clock", rng.below(1000)], ["start", "mt", {"pid": "p1"}], ["runall"]]
     limits = sorted(set(s for _, s in picks))
     answered = False
     for _ in range(rng.range(3, 9)):
@@ -69,12 +111,23 @@ def gen_scenario(seed, i):
 def run(ctx):
     ctx.check_theorems("ActsModel.Props.C19")
     n = 200 if ctx.tier == "quick" else 5000
-    scs, metas = [], []
+    base, base_metas = [], []
     for i in range(n):
-        sc, meta = gen_scenario(ctx.seed, i)
-        scs.append(sc)
-        metas.append(meta)
-    results = ctx.harness("run", scs)
+        if i % 5 == 4:
+            sc, ms = gen_both(ctx.seed, i)
+        else:
+            sc, meta = gen_scenario(ctx.seed, i)
+            ms = [meta]
+        base.append(sc)
+        base_metas.append(ms)
+    base_results = ctx.harness("run", base)
+    # one evaluation per timed task
+    scs, metas, results = [], [], []
+    for sc, ms, res in zip(base, base_metas, base_results):
+        for meta in ms:
+            scs.append(sc)
+            metas.append(meta)
+            results.append(res)
     reqs, evmaps = [], []
     for sc, meta, res in zip(scs, metas, results):
         now = CLOCK0
@@ -95,7 +148,7 @@ def run(ctx):
             for o in st["obs"]:
                 if o.get("k") == "new" and o.get("nid") == meta["timed_nid"] and start is None:
                     start = now
-            if op[0] == "tick":
+            if op[0] == "tick" and start is not None:      # ticks before the timed task exists are not its business
                 events.append((i, ["tick", now]))
             # the timed task reaches a terminal state
             for o in st["obs"]:
